@@ -371,6 +371,26 @@ theorem specPass_out_ne_ok (rc : RunCfg) (cyc : Nat) :
             · exact specPass_out_ne_ok rc cyc rest _ _
           · exact specPass_out_ne_ok rc cyc rest _ _
 
+theorem specPass_out_ne_limit (rc : RunCfg) (cyc : Nat) :
+    ∀ (es : List RuleEntry) (ss : SState) (acc : List RuleEntry), (specPass rc c cyc es ss acc).1 ≠ some .cycleLimit
+  | [], ss, acc => by simp only [specPass]; intro h; cases h
+  | e :: rest, ss, acc => by
+    simp only [specPass]
+    split
+    · intro h; cases h
+    · split
+      · exact specPass_out_ne_limit rc cyc rest _ _
+      · split
+        · split
+          · intro h; cases h
+          · exact specPass_out_ne_limit rc cyc rest _ _
+        · split
+          · intro h; cases h
+          · split
+            · intro h; cases h
+            · exact specPass_out_ne_limit rc cyc rest _ _
+          · exact specPass_out_ne_limit rc cyc rest _ _
+
 /-- **Quiescence.** When the reference loop ends with `ok` and `Complete()` was not called, no active rule
     is satisfied on the final facts. -/
 theorem specLoop_quiescent (rc : RunCfg) (entries : List RuleEntry) (hk : KeysNodup entries) :
@@ -528,5 +548,67 @@ theorem specLoop_exec (rc : RunCfg) (entries : List RuleEntry) :
               · split
                 · exact h4
                 · exact specLoop_exec rc entries fuel (cycle + 1) _ h4
+
+-- counting firings --------------------------------------------------------------------------------------
+
+/-- the loop counter is the number of firings, and it never exceeds MaxCycle; when the cycle-limit error
+    is returned exactly MaxCycle rules have fired -/
+theorem specLoop_count (rc : RunCfg) (entries : List RuleEntry) :
+    ∀ (fuel cycle : Nat) (ss : SState), ss.fired.length = cycle → cycle ≤ rc.maxCycle →
+      (specLoop rc c entries fuel cycle ss).2.fired.length ≤ rc.maxCycle ∧
+      ((specLoop rc c entries fuel cycle ss).1 = .cycleLimit →
+        (specLoop rc c entries fuel cycle ss).2.fired.length = rc.maxCycle)
+  | 0, cycle, ss, h, hle => by
+    simp only [specLoop]
+    exact ⟨by omega, fun hh => by cases hh⟩
+  | fuel + 1, cycle, ss, h, hle => by
+    simp only [specLoop]
+    split
+    · exact ⟨by simp only [specPoll_fired]; omega, fun hh => by cases hh⟩
+    · generalize hS : ({ (specPoll rc ss).2.emit (TEv.begin (cycle + 1)) with
+          passes := ((specPoll rc ss).2.emit (TEv.begin (cycle + 1))).passes + 1 } : SState) = S
+      have hSf : S.fired = ss.fired := by rw [← hS]; rfl
+      obtain ⟨_, hfi, _⟩ := specPass_spec (c := c) rc (cycle + 1)
+        (orderEntries (rc.order ((specPoll rc ss).2.emit (TEv.begin (cycle + 1))).passes) entries) S []
+      have hne := specPass_out_ne_ok (c := c) rc (cycle + 1)
+        (orderEntries (rc.order ((specPoll rc ss).2.emit (TEv.begin (cycle + 1))).passes) entries) S []
+      have hnl : (specPass rc c (cycle + 1)
+        (orderEntries (rc.order ((specPoll rc ss).2.emit (TEv.begin (cycle + 1))).passes) entries) S []).1 ≠ some .cycleLimit :=
+        specPass_out_ne_limit rc (cycle + 1) _ S []
+      generalize specPass rc c (cycle + 1)
+        (orderEntries (rc.order ((specPoll rc ss).2.emit (TEv.begin (cycle + 1))).passes) entries) S [] = sp at hfi hne hnl
+      obtain ⟨o, ss3, acc⟩ := sp
+      simp only at hfi hne hnl
+      have h3 : ss3.fired.length = cycle := by rw [hfi, hSf]; exact h
+      cases o with
+      | some out =>
+        simp only
+        exact ⟨by omega, fun hh => by subst hh; exact absurd rfl hnl⟩
+      | none =>
+        simp only
+        split
+        · exact ⟨by simp only [specPoll_fired]; omega, fun hh => by cases hh⟩
+        · have h3' : (specPoll rc ss3).2.fired.length = cycle := h3
+          generalize (specPoll rc ss3).2 = ss4 at h3'
+          cases acc with
+          | nil => simp only; exact ⟨by omega, fun hh => by cases hh⟩
+          | cons r0 rs =>
+            simp only
+            split
+            · rename_i hlim
+              simp only
+              exact ⟨by omega, fun _ => by omega⟩
+            · rename_i hlim
+              have h4 : ((cycle + 1, pickRunner r0 rs, ss4.vis) :: ss4.fired).length = cycle + 1 := by
+                simp only [List.length_cons, h3']
+              have hle' : cycle + 1 ≤ rc.maxCycle := by omega
+              split
+              · exact ⟨by simp only [specPoll_fired, h4]; omega, fun hh => by cases hh⟩
+              · split
+                · exact ⟨by simp only [specPoll_fired, h4]; omega, fun hh => by cases hh⟩
+                · exact ⟨by simp only [specPoll_fired, h4]; omega, fun hh => by cases hh⟩
+                · split
+                  · exact ⟨by simp only [specPoll_fired, h4]; omega, fun hh => by cases hh⟩
+                  · exact specLoop_count rc entries fuel (cycle + 1) _ (by simp only [specPoll_fired, h4]) hle'
 
 end Grule
